@@ -188,6 +188,50 @@ def ensure_portable_so():
     return so
 
 
+def ensure_cross_blob(arch):
+    """Assembles the hand-written JIT runtime of another architecture with clang, links it flat at address 0 with lld and wraps the
+    bytes into a host object whose symbols sit at the original offsets (C19: a64, C20: rv64)."""
+    cfg = {'a64': dict(src='jit_compiler_a64_static.S', target=['--target=aarch64-linux-gnu', '-march=armv8-a+crypto'], emul='aarch64linux'),
+           'rv64': dict(src='jit_compiler_rv64_static.S', target=['--target=riscv64-linux-gnu', '-march=rv64gc', '-mno-relax'], emul='elf64lriscv')}[arch]
+    d = variant_dir('cross')
+    obj = os.path.join(d, arch + '_blob.o')
+    if os.path.exists(obj):
+        return obj
+    with Lock('cross-' + arch):
+        if os.path.exists(obj):
+            return obj
+        os.makedirs(d, exist_ok=True)
+        base = os.path.join(d, arch)
+        for cmd in (['clang'] + cfg['target'] + ['-c', os.path.join(REPO, 'src', cfg['src']), '-I', os.path.join(REPO, 'src'), '-o', base + '.target.o'],
+                    ['ld.lld', '-m', cfg['emul'], '-Ttext=0', '-e', '0', base + '.target.o', '-o', base + '.elf'],
+                    ['llvm-objcopy', '-O', 'binary', '--only-section=.text', base + '.elf', base + '.bin']):
+            r = sh(cmd)
+            if r.returncode != 0:
+                raise BuildError('cross blob %s: %s\n%s' % (arch, ' '.join(cmd), r.stdout[-3000:]))
+        r = sh(['llvm-nm', base + '.elf'])
+        syms = []
+        for line in r.stdout.splitlines():
+            parts = line.split()
+            if len(parts) == 3 and parts[1] in 'TtDdRr' and re.match(r'^[A-Za-z_][A-Za-z0-9_]*$', parts[2]):
+                syms.append((parts[2], int(parts[0], 16)))
+        asm = ['.section .rodata', '.balign 4096', '.globl %s_blob_begin' % arch, '%s_blob_begin:' % arch, '.incbin "%s.bin"' % base,
+               '.globl %s_blob_end' % arch, '%s_blob_end:' % arch]
+        seen = set()
+        for name, off in syms:
+            if name in seen:
+                continue
+            seen.add(name)
+            asm += ['.globl %s' % name, '.set %s, %s_blob_begin + %d' % (name, arch, off)]
+        asm.append('.section .note.GNU-stack,"",@progbits')
+        open(base + '_blob.S', 'w').write('\n'.join(asm) + '\n')
+        r = sh(['gcc', '-c', base + '_blob.S', '-o', obj + '.tmp'])
+        if r.returncode != 0:
+            raise BuildError('cross blob wrap failed:\n' + r.stdout[-3000:])
+        os.replace(obj + '.tmp', obj)
+        prune('cross')
+    return obj
+
+
 def verif_headers_hash():
     h = hashlib.sha256()
     for sub in ('harness', 'gen', 'model', 'interpose', 'emu'):
@@ -244,8 +288,7 @@ def ensure_harness(spec):
         libs.append(ensure_lib(variant))
     if spec.get('model', False):
         libs.append(ensure_model())
-    for dep in spec.get('deps', []):
-        dep()
+    extra_objs = [f(sys.modules[__name__]) for f in spec.get('extra_objs', [])]
     with Lock('h-' + spec['name'] + variant):
         if os.path.exists(exe):
             return exe
@@ -268,7 +311,7 @@ def ensure_harness(spec):
         compile_many(jobs)
         tmp = exe + '.tmp'
         san_link = [f.replace('fuzzer-no-link', 'fuzzer') for f in san if f.startswith('-fsanitize')]
-        cmd = [v['cxx']] + san_link + ['-o', tmp] + objs + ldflags + libs + ['-lrapidcheck', '-lpthread', '-ldl']
+        cmd = [v['cxx']] + san_link + ['-o', tmp] + objs + extra_objs + ldflags + libs + ['-lrapidcheck', '-lpthread', '-ldl']
         r = sh(cmd)
         if r.returncode != 0:
             raise BuildError('LINK FAILED: %s\n%s' % (' '.join(cmd), r.stdout[-6000:]))
@@ -570,6 +613,16 @@ def run_check(prop, tier, seed):
                         violations.append((path, 'flaky (%d/%d): %s' % (confirmed, nrep, f['why'])))
         shutil.rmtree(tmpd, ignore_errors=True)
     ev, labels, nt, samples, subs = merge_stats(all_stats)
+    selfcheck_problems = []
+    if 'post' in spec:
+        try:
+            pr = spec['post'](sys.modules[__name__], prop, tier)
+            labels[pr['label']] = pr['count']
+            selfcheck_problems = pr['problems']
+        except Exception as e:
+            selfcheck_problems = ['post-check raised %r' % (e,)]
+        for sp in selfcheck_problems:
+            notes.append('harness self-check: ' + sp)
     for k in load_known():
         if k.get('property') == prop and k.get('status') == 'known' and k.get('always_report'):
             known_hits.append(k)
@@ -589,6 +642,9 @@ def run_check(prop, tier, seed):
             print('VIOLATION property=%s replay=%s' % (prop, path))
             print('  reason: %s' % why[:1500])
         return 1
+    if selfcheck_problems:
+        print('INCONCLUSIVE property=%s: harness self-check failed (oracle not trusted): %s' % (prop, selfcheck_problems[0]))
+        return 2
     under = spec.get('min_nontrivial', {}).get(tier, 2)
     if distinct < under or ev == 0:
         print('INCONCLUSIVE property=%s: only %d non-trivial cases (%d evaluations); see evidence notes' % (prop, distinct, ev))
